@@ -24,6 +24,8 @@ func c17(c *Ctx) {
 	c17R3(c)
 	c17R4(c)
 	c17R5(c)
+	bufferOwnershipRule(c, "R6")
+	c17R7(c)
 }
 
 func c17R1(c *Ctx) {
@@ -243,5 +245,32 @@ func c17R5(c *Ctx) {
 			}
 		}
 		c.R.Ob(rule, "IsComplete:count==total", ok, c.P.Pos(g.F.Pos()), fname(g), "completeness is count == total")
+	}
+}
+
+// c17R7: reassembly reads across part boundaries without surfacing a part's own EOF.
+func c17R7(c *Ctx) {
+	rule := c.R.Rule("R7", "reassembly reader: in PartSetReader.Read the underlying bytes.Reader is read only under a guard showing it still holds data for the request (Len() >= len(p), or Len() > 0), so an exhausted or empty part never surfaces io.EOF; io.EOF itself is returned only under psr.i >= len(psr.parts)", 2)
+	f := c.Anchor(rule, "gemmill/types.(*PartSetReader).Read")
+	if f == nil {
+		return
+	}
+	ln := "bytes.(*Reader).Len(a0.reader)"
+	n := 0
+	for _, ci := range f.CallsTo(cfgx.Named("bytes.(*Reader).Read")) {
+		n++
+		ok := f.HasGuard(ci.(ssa.Instruction), func(g string) bool {
+			return g == "("+ln+" >= len(a1))" || g == "("+ln+" > 0)" || g == "("+ln+" != 0)"
+		})
+		c.R.Ob(rule, "reader.Read⊣reader-holds-data", ok, c.Pos(ci), fname(f), "reading an exhausted (or empty) part's reader returns io.EOF in the middle of the block; "+shorten(guardsText(f, ci.(ssa.Instruction))))
+	}
+	if n == 0 {
+		c.R.Undecided(rule, "reader.Read-site", c.P.Pos(f.F.Pos()), fname(f), "no read of the part reader")
+	}
+	for _, r := range f.Returns() {
+		vs := f.ReturnValues(r)
+		if len(vs) == 2 && strings.HasSuffix(exprOf(vs[1]), "io.EOF") {
+			c.R.Ob(rule, "EOF⊣all-parts-consumed", f.HasGuard(r, eqs("(a0.i >= len(a0.parts))")), c.Pos(r), fname(f), "io.EOF only after the last part")
+		}
 	}
 }
